@@ -162,6 +162,13 @@ func (k *Ctl) FinishRequest(body []byte) (*Msg, []*Msg, error) {
 	return k.Await()
 }
 
+// PeekResponseStart waits until the first bytes of the next message are available without consuming them.
+func (k *Ctl) PeekResponseStart() error {
+	k.C.SetReadDeadline(time.Now().Add(k.Timeout))
+	_, err := k.br.Peek(5)
+	return err
+}
+
 // ReadMsg reads one HTTP or EVENT message from the plaintext view.
 func (k *Ctl) ReadMsg() (*Msg, error) {
 	k.C.SetReadDeadline(time.Now().Add(k.Timeout))
